@@ -60,6 +60,7 @@ Inductive check := CBuf (h : N) | CBack (h : N).
 
 Inductive instr :=
 | IRun (sg : subgraph)
+| IDecl (hs : list N)        (* loop-exit handoff buffers declared (empty) before the loop gate *)
 | IGate (root : bool) (checks : list check) (body : list instr) (swaps : list N).
 
 Record prog := {
@@ -191,6 +192,7 @@ Definition loop_fuel : nat := 64.
 Fixpoint exec (ext : bufs) (i : instr) (w : world) {struct i} : world :=
   match i with
   | IRun sg => run_sg ext sg w
+  | IDecl hs => fold_left (fun (w : world) (h : N) => set_buf w (update h [] (w_buf w))) hs w
   | IGate root checks body swaps =>
       let run_body := fun w => swap_all swaps (fold_left (fun w i => exec ext i w) body w) in
       match checks with
